@@ -417,3 +417,103 @@ func (w *c16Conc) final() {
 func TestC16Conc(t *testing.T) {
 	evid.Run(t, "C16", "c16-conc", evid.Opts{Journal: true}, genC16Conc, runC16Conc)
 }
+
+// ---- join storms: many rounds of simultaneous joins/leaves at a room's capacity
+
+type c16Storm struct {
+	MaxRoom int     `json:"max_room"`
+	Conns   int     `json:"conns"`
+	Rooms   int     `json:"rooms"`
+	Rounds  int     `json:"rounds"`
+	Scripts [][]int `json:"scripts"` // per connection: +r+1 join room r, -(r+1) leave room r
+}
+
+func genC16Storm(rt *rapid.T) c16Storm {
+	c := c16Storm{MaxRoom: 1 + lang.Spread(rt, "maxroom", 3), Conns: 3 + lang.Spread(rt, "conns", 6), Rooms: 1 + lang.Spread(rt, "rooms", 2), Rounds: 150}
+	for i := 0; i < c.Conns; i++ {
+		n := 1 + lang.Spread(rt, "len", 3)
+		var sc []int
+		for j := 0; j < n; j++ {
+			r := 1 + lang.Spread(rt, "room", c.Rooms)
+			if j > 0 && lang.Spread(rt, "leave", 3) == 0 {
+				r = -r
+			}
+			sc = append(sc, r)
+		}
+		c.Scripts = append(c.Scripts, sc)
+	}
+	return c
+}
+
+func runC16Storm(c c16Storm) evid.Outcome {
+	cfg := DefaultConfig()
+	cfg.MaxConnectionsPerRoom = c.MaxRoom
+	cfg.EnableHeartbeat = false
+	cfg.EnableReconnection = false
+	hub := NewHubWithConfig(cfg)
+	go hub.Run()
+	<-hub.started
+	defer close(hub.shutdown)
+	conns := make([]*Connection, c.Conns)
+	for i := range conns {
+		// never closed by the hub in this unit: no socket needed
+		conns[i] = NewConnection(fmt.Sprintf("conn%d", i), nil, hub)
+		hub.register <- conns[i]
+	}
+	overfull := 0
+	for round := 0; round < c.Rounds; round++ {
+		var wg sync.WaitGroup
+		start := make(chan struct{})
+		for i, sc := range c.Scripts {
+			wg.Add(1)
+			go func(conn *Connection, sc []int) {
+				defer wg.Done()
+				<-start
+				for _, r := range sc {
+					if r > 0 {
+						conn.JoinRoom(c16Room(r - 1))
+					} else {
+						conn.LeaveRoom(c16Room(-r - 1))
+					}
+				}
+			}(conns[i], sc)
+		}
+		ok, p := evid.WithTimeout(c16Wait, func() { close(start); wg.Wait() })
+		if !ok {
+			return evid.Failf("c16.deadlock", "round %d: simultaneous joins did not return within %v", round, c16Wait)
+		}
+		if p != nil {
+			return evid.Failf("c16.panic", "round %d: %v", round, p)
+		}
+		for r := 0; r < c.Rooms; r++ {
+			room, ok := hub.roomManager.GetRoom(c16Room(r))
+			if !ok {
+				continue
+			}
+			if room.Size() > c.MaxRoom {
+				return evid.Failf("c16.room-over-capacity", "round %d: %s holds %d connections, limit %d, after %d connections ran their join scripts simultaneously", round, room.Name, room.Size(), c.MaxRoom, c.Conns)
+			}
+			if room.Size() == c.MaxRoom {
+				overfull++
+			}
+		}
+		for i, conn := range conns {
+			for r := 0; r < c.Rooms; r++ {
+				room, ok := hub.roomManager.GetRoom(c16Room(r))
+				has := ok && room.Has(conn)
+				if has != conn.IsInRoom(c16Room(r)) {
+					return evid.Failf("c16.view-differs-from-membership", "round %d: connection %d IsInRoom(%s)=%v but the room says %v", round, i, c16Room(r), conn.IsInRoom(c16Room(r)), has)
+				}
+			}
+			// everybody out for the next round
+			for r := 0; r < c.Rooms; r++ {
+				conn.LeaveRoom(c16Room(r))
+			}
+		}
+	}
+	return evid.Outcome{Nontrivial: overfull > 0, Labels: []string{fmt.Sprintf("conns:%d", c.Conns), fmt.Sprintf("cap:%d", c.MaxRoom)}}
+}
+
+func TestC16Storm(t *testing.T) {
+	evid.Run(t, "C16", "c16-storm", evid.Opts{Journal: true}, genC16Storm, runC16Storm)
+}
